@@ -14,15 +14,15 @@ chk("C07","exploration",
  "Trusted: the application model's call log and gate monitor. Bounded by the stated header/body alphabets.",
  "bounded-exhaustive enumeration of the request product against a call-log monitor","DESIGN.md 3 C07")
 chk("C08","model_checking",
- "2-3 real request goroutines on one Actor run under a cooperative scheduler that owns every Database/Transport/callback call and models application locks as blocking resources; all interleavings of 2-thread scenarios (visited-state pruning) and all interleavings with <=2 (quick) / <=3 (thorough) preemptions of 3-thread scenarios are executed on the real code; oracle: no deadlock, all return, final collections equal a sequential order's as multisets, duplicates processed once; plus a supplementary free-running -race pass of the same scenarios.",
+ "17 hand-written collision scenarios plus every unordered pair of 21 request kinds (231 scenarios; thorough: also every triple of the 13 state-changing kinds): 2-3 real request goroutines on one Actor run under a cooperative scheduler that owns every Database/Transport/callback call and models application locks as blocking resources; all interleavings of 2-thread scenarios (visited-state pruning) and all interleavings with <=2 (quick) / <=3 (thorough) preemptions of 3-thread scenarios are executed on the real code; oracle: no deadlock, all return, final collections equal a sequential order's as multisets, duplicates processed once; plus a supplementary free-running -race pass of the same scenarios.",
  "Trusted: scheduler, state-key soundness argument (DESIGN 2.1), application locks are mutual exclusion; interleaving granularity = seam calls.",
  "stateless model checking of the implementation: exhaustive schedule enumeration under a controlled scheduler with preemption bounding and state-key pruning","DESIGN.md 3 C08")
 chk("C09","fault_enumeration",
- "Every scenario of a corpus covering each default side-effect path is executed on the real handlers fault-free and once per fallible seam call failing (pairs in thorough); a lock monitor in the application model checks release-exactly-once, no re-lock, no unlock of an unheld lock and no unlocked database access on every run.",
+ "Every scenario of a corpus covering each default side-effect path (each POST scenario also with application hooks wrapped around the default callbacks, plus a generated addressing family) is executed on the real handlers fault-free and once per fallible seam call failing (pairs in thorough); a lock monitor in the application model checks release-exactly-once, no re-lock, no unlock of an unheld lock and no unlocked database access on every run.",
  "Trusted: the application model's lock monitor; an erroring Unlock frees, an erroring Lock does not acquire; bounds: corpus scenarios, <=1 (quick) / <=2 (thorough) simultaneous faults.",
  "bounded-exhaustive fault-sequence enumeration (choice-list DFS) over the real code","DESIGN.md 3 C09")
 chk("C10","fault_enumeration",
- "C07's request product, a family of bodies varying id / required object / required target, and every corpus scenario under every single (thorough: double) seam fault are executed on the real handlers with a counting ResponseWriter; the oracle checks the exactly-one-outcome trichotomy and the documented status table (405/400/403/200/410/201+Location).",
+ "C07's request product, a family of bodies varying id / required object / required target, and every corpus scenario (also with application hooks wrapped) under every single (thorough: double) seam fault are executed on the real handlers with a counting ResponseWriter; the oracle checks the exactly-one-outcome trichotomy and the documented status table (405/400/403/200/410/201+Location).",
  "Trusted: counting writer; a denying Authenticate* writes its own 401; the ResponseWriter never fails; Announce/Accept/Reject without object not asserted.",
  "bounded-exhaustive request and fault-sequence enumeration against a status oracle","DESIGN.md 3 C10")
 
